@@ -75,6 +75,7 @@ reg("C16",
                  "on the number of digits",
                  "fetch: stored names satisfy name_ok; NormalizeBlockID is the identity (its default)"],
     codes={1: "model-mismatch", 2: "property-checker-rejects-impl", 3: "mismatch+property", 4: "impl-panic-or-hang",
-           5: "damaged-before-fault-offset-or-non-prefix-on-truncation"},
+           5: "damaged-before-fault-offset-or-non-prefix-on-truncation",
+           6: "corrupt-length-prefix-allocates-the-claimed-size"},
     n_quick=240, n_thorough=6000, n_escalate=1500,
     )
